@@ -297,6 +297,10 @@ GROUP_KW = {
 }
 
 _class_counter = [0]
+import types as _types  # noqa: E402
+
+# generated machine / provider classes live in a real module so that pickle can find them by name
+vmod = sys.modules.setdefault("vmod", _types.ModuleType("vmod"))
 
 
 def cb_name(c, cb):
@@ -466,6 +470,7 @@ class Built:
         with warnings.catch_warnings(record=True) as w:
             warnings.simplefilter("always")
             self.cls = StateMachineMetaclass(name, (StateMachine,), attrs, **kwargs)
+        setattr(vmod, name, self.cls)
         self.warnings = [str(x.message) for x in w]
 
     def make_provider(self, prov, state_field="state", stored=None, kind="attr", slot=0):
@@ -489,7 +494,11 @@ class Built:
                 methods["__len__"] = lambda self_: 0
             elif kind == "falsy_bool":
                 methods["__bool__"] = lambda self_: False
-        cls = type(f"P_{prov}", (), methods)
+        _class_counter[0] += 1
+        pname = f"P_{prov}_{_class_counter[0]}"
+        methods["__module__"] = "vmod"
+        cls = type(pname, (), methods)
+        setattr(vmod, pname, cls)
         obj = cls()
         obj.__dict__["_vslot"] = slot
         if prov == "model":
@@ -759,6 +768,14 @@ class Runner:
                     clone = copy.deepcopy(sm)
                 else:
                     clone = pickle.loads(pickle.dumps(sm))
+                if clone.model is sm.model and step.get("model_shared_ok") is None:
+                    self.rt.notes.append({"kind": "clone_shares_model", "i": i, "j": j})
+                try:   # tag the copied provider objects with the clone's slot
+                    for obj in [clone.model, *getattr(clone, "_listeners", {})]:
+                        if hasattr(obj, "__dict__") and "_vslot" in obj.__dict__:
+                            obj.__dict__["_vslot"] = j
+                except Exception:  # noqa: BLE001
+                    pass
                 self.sm[j] = clone
                 self.user_models[j] = None
                 self.clone_of = getattr(self, "clone_of", {})
